@@ -8,6 +8,7 @@ Line protocol of engine `histogram` (floats are 16-hex-digit bit patterns):
                                                 (`none` = out of range, `-` = the probe is not a u64)
 * `hist <exp|atomic|sam> <ratio bits|-> <src>*` → `<obs list> | <obs list after re-aggregation>`
       src = `u<n>` | `f<bits>` | `d<secs>.<nanos>` | `r<total bits>.<occurrences>`
+          | `m<o>+<o>+…` (one value writing several observations o = u…|f…|r… in ONE metric() call; `m` = none)
       obs list = `<total bits>:<occurrences>,…` or `-`
 * `trace <f<bits>*<count>,…|-> | <obs list> / <obs list> / …` → `accept <recorded occurrences>` | `reject`
 -/
@@ -38,8 +39,23 @@ def parseU64 (s : String) : Option Nat :=
   | some n => if n < 2 ^ 64 then some n else none
   | none => none
 
+def parseObs (s : String) : Option Obs :=
+  let body := (s.drop 1).toString
+  if s.startsWith "u" then (parseU64 body).map .unsigned
+  else if s.startsWith "f" then (parseHex64 body).map .floating
+  else if s.startsWith "r" then
+    match body.splitOn "." with
+    | [a, b] => match parseHex64 a, parseU64 b with
+      | some x, some y => some (.repeated x y)
+      | _, _ => none
+    | _ => none
+  else none
+
 def parseSrc (s : String) : Option Src :=
   let body := (s.drop 1).toString
+  if s.startsWith "m" then
+    (if body.isEmpty then some (.multi []) else ((body.splitOn "+").mapM parseObs).map .multi)
+  else
   if s.startsWith "u" then (parseU64 body).map .unsigned
   else if s.startsWith "f" then (parseHex64 body).map .floating
   else if s.startsWith "d" then
@@ -88,7 +104,7 @@ def handleHist (strategy ratio : String) (srcs : List String) : String :=
   let ratio? : Option (Option Nat) := if ratio == "-" then some none else (parseHex64 ratio).map some
   match parseStrategy strategy, ratio?, srcs.mapM parseSrc with
   | some s, some r, some vs =>
-    let recs := vs.filterMap fun v => capture (convert r v.observe)
+    let recs := captured r vs
     let closed := closeAfter params s recs
     s!"{showObsList closed} | {showObsList (reaggregate params s closed)}"
   | _, _, _ => "bad-op"
